@@ -18,6 +18,7 @@ CFG = """SPECIFICATION Spec
 CONSTANTS MaxRows = %d
  MaxDefRows = %d
  MaxQRows = %d
+ QSampleMod = %d
 INVARIANT TypeOK
 INVARIANT RefinesAccept
 INVARIANT DefectsJudged
@@ -150,7 +151,7 @@ def run(res):
   # quick: every table of <= 3 rows in the legal presentations, every single illegal deviation and every query
   # on the tables of <= 2 rows; thorough: everything on <= 3 rows
   maxrows, maxdef, maxq = (3, 3, 3) if thorough else (3, 2, 2)
-  r = tlc.run_tlc('Eligibility', CFG % (maxrows, maxdef, maxq), tlc.run_dir('C16'), workers=1, timeout=3000)
+  r = tlc.run_tlc('Eligibility', CFG % (maxrows, maxdef, maxq, 0 if thorough else 11), tlc.run_dir('C16'), workers=1, timeout=3000)
   tlc.require_clean(r, 'Eligibility')
   res.add_tlc(r, 'Eligibility')
   if r.violated:
@@ -171,8 +172,9 @@ def run(res):
   for c in qcases:
     by_table.setdefault(table_key(c['table']), []).append(c)
   n_acc_tables = sum(1 for c in vcases if c['accept'] and len(c['table']['rows']) <= maxq)
-  if len(by_table) != n_acc_tables:
+  if len(by_table) < n_acc_tables:      # (larger accepted tables are queried too when the spec samples them)
     raise tlc.MachineryError('%d accepted tables to be queried but queries for %d' % (n_acc_tables, len(by_table)))
+  res.extra['tables_queried'] = len(by_table)
   res.exhaustive = True
   res.rule = ('all tables of <= %d rows over the eight 0/1 triples, clean / geo as index / extra column; on tables of '
               '<= %d rows every single illegal deviation (missing / duplicated column, duplicated ID in same / other '
